@@ -223,6 +223,50 @@ func (in *Interp) builtin(b *ssa.Builtin, args []Value) Value {
 		ch := args[0].(*ChanObj)
 		ch.closed = true
 		return nil
+	case "String": // unsafe.String(ptr, len)
+		p := args[0].(PtrV)
+		n := in.concInt(args[1], "unsafe.String len")
+		if n == 0 {
+			return StrV{}
+		}
+		if p.c == nil || p.c.parr == nil {
+			panic(unsupported("unsafe.String on a pointer that is not an array element"))
+		}
+		b := make([]*Term, n)
+		for i := 0; i < n; i++ {
+			b[i] = in.load(in.elem(p.c.parr, p.c.pidx+i)).(*Term)
+		}
+		return StrV{b}
+	case "StringData":
+		s := args[0].(StrV)
+		if len(s.b) == 0 {
+			return PtrV{}
+		}
+		sl := in.mkByteSlice(s.b)
+		return PtrV{c: in.elem(sl.arr, 0)}
+	case "SliceData":
+		s := args[0].(SliceV)
+		if s.arr == nil {
+			return PtrV{}
+		}
+		if s.cap == 0 {
+			return PtrV{c: in.newCell(s.arr.et)}
+		}
+		return PtrV{c: in.elem(s.arr, s.off)}
+	case "Slice": // unsafe.Slice(ptr, len)
+		p := args[0].(PtrV)
+		n := in.concInt(args[1], "unsafe.Slice len")
+		if p.c == nil {
+			return SliceV{}
+		}
+		if p.c.parr == nil {
+			if n <= 1 {
+				arr := &ArrObj{cells: []*Cell{p.c}, et: p.c.t, born: p.c.born}
+				return SliceV{arr: arr, len: n, cap: 1}
+			}
+			panic(unsupported("unsafe.Slice on a pointer that is not an array element"))
+		}
+		return SliceV{arr: p.c.parr, off: p.c.pidx, len: n, cap: n}
 	case "ssa:wrapnilchk":
 		p := args[0].(PtrV)
 		if p.c == nil {
